@@ -402,6 +402,40 @@ func c04Check(ctx *vfCtx, c c04Case) {
 		if sticky || !stickyEnd.IsZero() {
 			ctx.Fail("C04/stripped-key-observable/sticky", "content hash mismatch: IsSticky() = %v, StickyEndTime() = %v although no sticky key is in the redacted form", sticky, stickyEnd)
 		}
+		// the receiving server's own annotations (what PerformJoin and the invite handlers do next) leave
+		// it what it is: still flagged, still only the redacted form
+		var annotated [3]PDU
+		var aerr [2]error
+		if vfCatch(ctx, "C04/annotate", func() {
+			annotated[0], aerr[0] = ev.SetUnsigned(map[string]any{"age": 1})
+			if cp, perr := impl.NewEventFromUntrustedJSON(append([]byte(nil), wire...)); perr == nil && cp != nil {
+				if aerr[1] = cp.SetUnsignedField("transaction_id", "c04"); aerr[1] == nil {
+					annotated[1] = cp
+				}
+			}
+			_, priv := vfKeyFor("c04:local")
+			if cp, perr := impl.NewEventFromUntrustedJSON(append([]byte(nil), wire...)); perr == nil && cp != nil {
+				annotated[2] = cp.Sign("local.example", "ed25519:c04", priv)
+			}
+		}) {
+			return
+		}
+		for i, a := range annotated {
+			label := []string{"SetUnsigned", "SetUnsignedField", "Sign"}[i]
+			if a == nil || (i < 2 && aerr[i] != nil) {
+				continue
+			}
+			if !a.Redacted() {
+				ctx.Fail("C04/not-flagged-redacted/after-"+label, "content hash does not match; after %s on the parsed event Redacted() is false; wire=%q", label, wire)
+			}
+			at, terr := evTree(a.JSON())
+			if terr != nil {
+				continue
+			}
+			if !jequal(at.without("unsigned", "signatures"), want.without("unsigned", "signatures")) {
+				ctx.Fail("C04/unredacted-material-observable/after-"+label, "content hash mismatch: after %s JSON() = %q, want the redacted form %s", label, a.JSON(), jcanon(want))
+			}
+		}
 	}
 	if len(ev.Unsigned()) != 0 {
 		ctx.Fail("C04/unsigned-not-stripped", "Unsigned() = %q on an untrusted event (unsigned is stripped on receipt)", ev.Unsigned())
